@@ -6,6 +6,7 @@ cache key with atomic steps of the code; `Model/SetCache.lean` (key-to-set map).
 -/
 import QbiceVerif.Lemmas.CacheWide
 import QbiceVerif.Lemmas.CacheSet
+import QbiceVerif.Lemmas.CacheWideConc
 
 namespace QbiceVerif.C09
 open QbiceVerif
@@ -47,8 +48,8 @@ example :
        .probe 0, .sfEnter 0, .readDb 0, .fill 0, .sfLeave 0, .probe 0]).map (·.2)
       = some [(some 7, some 7), (some 7, some 7), (none, none), (none, none)] := by decide
 
-/-- "plus parallel readers/writers on shared keys": with two foreground tasks the statement is
-FALSE for the code as it is (finding F9).  Task 0's fill reads the store (100) and is overtaken by
+/-- HISTORICAL witness (fixed in /repo 5fe68af).  "plus parallel readers/writers on shared keys": with two
+foreground tasks the statement was FALSE for the code before the fix (finding F9).  Task 0's fill reads the store (100) and is overtaken by
 task 1's write 7 – commit – un-pin – evict; the fill then installs 100, and every later `get` of
 either task returns 100 although 7 was written (and is in the store). -/
 theorem wide_refines_map_concurrent_fails :
@@ -58,24 +59,67 @@ theorem wide_refines_map_concurrent_fails :
        .fill 0, .sfLeave 0, .probe 0, .probe 1]).map (·.2)
       = some [(some 100, some 7), (some 100, some 7)] := by decide
 
-/-- The statement for any number of foreground tasks under the hypothesis that excludes F9's window;
-NOT proved (listed in the plugin's PARTIAL).  `quiet` says: whenever a task performs its
-insert-if-vacant (`fill`), no other task has updated the cache entry of the key (`cacheWrite`) since
-that task's last probe; `ordered` says writes reach the cache in batch-epoch order. -/
-def C09_concurrent_statement : Prop :=
-  ∀ (db0 : Option Nat) (n : Nat) (sched : List WideCache.Ev) (s : WideCache.State)
-    (outs : List (Option Nat × Option Nat)),
-    WideCache.run (WideCache.init db0 n) sched = some (s, outs) →
-    (∀ (i j : Nat) (t : Nat), i < j → sched[j]? = some (.fill t) →
-        (∃ u, sched[i]? = some (.cacheWrite u) ∧ u ≠ t) →
-        ∃ k, i < k ∧ k < j ∧ sched[k]? = some (.probe t)) →
-    (∀ (i j : Nat) (t u : Nat), i < j → sched[i]? = some (.cacheWrite t) → sched[j]? = some (.cacheWrite u) →
-        ∀ (si sj : WideCache.State) (oi oj : List (Option Nat × Option Nat)),
-          WideCache.run (WideCache.init db0 n) (sched.take i) = some (si, oi) →
-          WideCache.run (WideCache.init db0 n) (sched.take j) = some (sj, oj) →
-          ∀ bi bj, (si.tasks[t]?).bind (·.openB) = some bi → (sj.tasks[u]?).bind (·.openB) = some bj →
-            bi.epoch ≤ bj.epoch) →
-    ∀ p ∈ outs, p.1 = p.2
+/-- "plus parallel readers/writers on shared keys" – the wide cache AS THE CODE IS (since /repo 5fe68af;
+model `WideCacheR` with `fix = true`, the configuration the correspondence driver runs: a write-generation
+counter bumped inside the entry-lock critical section of every insert/remove, loaded by `get` before it
+probes, and compared by the fill before it installs the value it read from the store).
+
+ANY number `n` of foreground tasks, each with its own open batch; ANY interleaving of their atomic steps
+(begin / put / cacheWrite / submit / readGen / probe / single-flight enter, wake, leave / store read / fill)
+with the background events commit / notify / evict; the only requirement on the schedule is the usage
+assumption `ordered`: a write reaches the cache (`cacheWrite`) only from a batch whose epoch is larger than
+that of every other uncommitted batch that has already written the key to the cache (without it even a
+sequential pair of writes from two overlapping batches is applied to the store in the other order – see
+`ordered_is_needed`).  Then every value a `get` returns equals `latest` at the moment of its final probe,
+where `latest` is the value of the most recent `cacheWrite`.
+
+This is linearizability of the map with linearisation points inside the operations: a write
+linearises at its `cacheWrite` (between its invocation `put` and its return), a `get` at its final
+probe; so a `get` follows, in the linearisation, every write that returned before it was issued, and
+returns the last write before its point. -/
+theorem wide_refines_map_concurrent (db0 : Option Nat) (n : Nat) (sched : List WideCacheR.Ev)
+    (s : WideCacheR.State) (outs : List (Option Nat × Option Nat))
+    (h : WideCacheR.run (WideCacheR.init true db0 n) sched = some (s, outs)) :
+    ∀ p ∈ outs, p.1 = p.2 :=
+  WideCacheR.run_outputs (WideCacheR.inv_init db0 n) h
+
+/-- the same as an invariant of the states reachable by ordered schedules -/
+theorem wide_refines_map_concurrent_reach (db0 : Option Nat) (n : Nat) (s s' : WideCacheR.State) (i : Nat)
+    (r : Option Nat) (hr : WideCacheR.Reach (WideCacheR.init true db0 n) s)
+    (hp : WideCacheR.fire s (.probe i) = some (s', some r)) : r = s.latest :=
+  ((WideCacheR.inv_step (WideCacheR.inv_reach hr) (by intro t ht; cases ht) hp).2 r rfl).1
+
+/-- non-vacuity, three tasks: task 0 is inside a fill (store read done) while task 1 writes 7, which is
+committed, un-pinned and evicted, and task 2 waits on the single flight; task 0's fill is refused by the
+generation check, task 2 refills; later a remove by task 1 is seen by task 0 as remembered absence. -/
+example :
+    (WideCacheR.run (WideCacheR.init true (some 100) 3)
+      [.readGen 0, .probe 0, .sfEnter 0, .readDb 0,
+       .begin 1, .put 1 (some 7), .readGen 2, .probe 2, .sfEnter 2, .cacheWrite 1, .submit 1, .commit, .notify, .evict,
+       .fill 0, .sfLeave 0, .sfWake 2, .readGen 2, .probe 2, .sfEnter 2, .readDb 2, .fill 2, .sfLeave 2,
+       .readGen 2, .probe 2, .readGen 0, .probe 0, .begin 1, .put 1 none, .cacheWrite 1, .readGen 0, .probe 0]).map (·.2)
+      = some [(some 7, some 7), (some 7, some 7), (none, none)] := by decide
+
+/-- HISTORICAL witness: the machine `WideCacheR` with the generation check switched off (`fix = false`) is the
+code before 5fe68af and shows finding F9 on the schedule of `wide_refines_map_concurrent_fails` (plus the no-op loads) -/
+theorem wide_concurrent_unrepaired_fails :
+    (WideCacheR.run (WideCacheR.init false (some 100) 2)
+      [.readGen 0, .probe 0, .sfEnter 0, .readDb 0,
+       .begin 1, .put 1 (some 7), .cacheWrite 1, .submit 1, .commit, .notify, .evict,
+       .fill 0, .sfLeave 0, .readGen 0, .probe 0, .readGen 1, .probe 1]).map (·.2)
+      = some [(some 100, some 7), (some 100, some 7)] := by decide
+
+/-- the assumption `ordered` cannot be dropped (it is a usage constraint of the write-behind design, for the
+code as it is): batch 0 (task 0) and batch 1
+(task 1) are open together; task 1 writes 2, then task 0 writes 1 (sequentially, both return); the
+store applies the batches in epoch order, so after commit, un-pin and eviction a `get` returns 2
+although 1 was written last. -/
+theorem ordered_is_needed :
+    (WideCacheR.runAny (WideCacheR.init true none 2)
+      [.begin 0, .begin 1, .put 1 (some 2), .cacheWrite 1, .put 0 (some 1), .cacheWrite 0,
+       .submit 0, .submit 1, .commit, .commit, .notify, .notify, .evict,
+       .readGen 0, .probe 0, .sfEnter 0, .readDb 0, .fill 0, .sfLeave 0, .readGen 0, .probe 0]).map (·.2)
+      = some [(some 2, some 1)] := by decide
 
 /-! ## key-to-set map -/
 
@@ -107,6 +151,23 @@ example :
       = some [([1, 3, 4, 5, 6, 9], [1, 3, 4, 5, 6, 9]), ([1, 3, 4, 5, 6, 9], [1, 3, 4, 5, 6, 9]),
               ([1, 3, 4, 5, 6, 9], [1, 3, 4, 5, 6, 9]), ([1, 3, 4, 5, 6, 9], [1, 3, 4, 5, 6, 9]),
               ([4, 5, 6, 9], [4, 5, 6, 9])] := by decide
+
+/-- HISTORICAL witness (fixed in /repo 73760b5).  "reads racing with flushes … parallel readers/writers":
+lifting the atomicity of the set cache's operations FAILED for the code before the fix (finding F50, reproduced
+on the real code with two threads; the two-thread scenario runs clean on every check since the fix).
+`get` split at its two critical sections: the reader takes its staging snapshot and misses the cache
+(`getSnap`); the writer inserts 9 (staged in the log; the set is not cached, nothing else happens); the
+reader then builds the set from the store and its OLD snapshot and installs it (`getFetch`).  The
+installed in-memory set lacks 9, and every later `get` returns it. -/
+theorem set_concurrent_get_insert_fails :
+    (do
+      let s0 := SetCache.init SetCache.repaired 1024 [1, 2]
+      let sn ← SetCache.getSnap s0
+      let (s1, _) ← SetCache.fire s0 .begin
+      let (s2, _) ← SetCache.fire s1 (.ins 9)
+      let (s3, _) := SetCache.getFetch s2 sn
+      let (s4, out) := SetCache.get s3
+      pure (out, s4.truth) : Option (List Nat × List Nat)) = some ([1, 2], [1, 2, 9]) := by decide
 
 /-- HISTORICAL (the code BEFORE the fixes of F10 and F17, configuration `asIs` of the model): what
 that code did guarantee.  Along any schedule on which every `get` is
